@@ -704,10 +704,171 @@ def run(ctx):
             ok = any(q.before(f, j, i) for j in pre)
             ctx.check(ok, R6, '%s:%s:convert#%d:pending-bytes-flushed-first' % (short, f.short, k),
                       'caller bytes are handed to the filter while earlier bytes may still sit in the put area: output comes out of order', f.loc(i))
+    # ---------------- R9 buffered filterbuf against the std::streambuf put-area protocol (E3; the base class calls are the model, Filter::convert a recorder)
+    R9 = ctx.rule('C15.R9', 'filterbuf<Filter,N> under the std::streambuf protocol (E3: setp / pbase / pptr / epptr / pbump and ios::rdbuf / setstate modelled, Filter::convert replaced by a recorder, sputc driven by the '
+                            'library contract): steal() installs the filter in the stream and remembers the original buffer, for every message length around the buffer size the byte ranges handed to convert are exactly '
+                            'the bytes put, in order, each once, with the original buffer as sink; release() flushes the rest, restores the original buffer and forgets the stream; a failing convert makes overflow '
+                            'return EOF, sets failbit and makes release report -1')
+    from vlib.absint import AV as _AV, Arr as _Arr, PV as _PV, Cell as _Cell, Interp as _Interp, OutOfBounds as _OOB, Unsupported as _Uns
+    for rec in sorted(fbs):
+        short = rec.split('::')[-1].split(',')[0]
+        fns_ = dict((g.short if g.kind == 'method' else g.kind, g) for g in fbs[rec] if not (g.kind == 'ctor' and g.params))
+        need = ('ctor', 'steal', 'release', 'overflow')
+        ctx.require(all(k_ in fns_ for k_ in need), 'C15.R9: %s lacks one of %s' % (rec, need))
+        try:
+            N_ = int(rec.rstrip('> ').rsplit(',', 1)[1])
+        except ValueError:
+            raise AnalysisBroken('C15.R9: buffer size of %s not readable' % rec)
+        FLD = 'f:' + rec + '::'
+        bad = []
+        nruns = 0
+        for M in sorted(set([0, 1, 2, N_ - 1, N_, N_ + 1, 2 * N_ - 1, 2 * N_, 2 * N_ + 1, 2 * N_ + 37])):
+            for fail_at in (None, 0, 1):
+                st = {'pbase': None, 'pptr': None, 'epptr': None, 'rdbuf': 'orig', 'fail': False, 'conv': [], 'log': []}
+                ORIG, STREAM = _PV(_Arr([_AV.const(0)], 'original-streambuf'), 0), _PV(_Arr([_AV.const(0)], 'stream'), 0)
+
+                def h_setp(it, fn_, i_, env_, st=st):
+                    a_ = fn_.args(i_)
+                    b_, e_ = it.rvalue(fn_, a_[0], env_), it.rvalue(fn_, a_[1], env_)
+                    b_ = _PV(b_, 0) if isinstance(b_, _Arr) else b_
+                    st['pbase'], st['pptr'], st['epptr'] = b_, b_, e_
+                    return None
+
+                def h_get(which):
+                    return lambda it, fn_, i_, env_, st=st: st[which] if st[which] is not None else _AV.const(0)
+
+                def h_pbump(it, fn_, i_, env_, st=st):
+                    n_ = it.rvalue(fn_, fn_.args(i_)[0], env_)
+                    st['pptr'] = _PV(st['pptr'].arr, st['pptr'].off + n_.lo)
+                    return None
+
+                def h_rdbuf(it, fn_, i_, env_, st=st, ORIG=ORIG):
+                    a_ = fn_.args(i_)
+                    if not a_:
+                        return ORIG if st['rdbuf'] == 'orig' else _AV.const(1)
+                    is_this = fn_.N(fn_.strip(a_[0]))['k'] == 'CXXThisExpr'
+                    old_ = ORIG if st['rdbuf'] == 'orig' else _PV(_Arr([_AV.const(0)], 'filter'), 0)
+                    if is_this:
+                        st['rdbuf'] = 'filter'
+                    else:
+                        v_ = it.rvalue(fn_, a_[0], env_)
+                        st['rdbuf'] = 'orig' if (isinstance(v_, _PV) and v_.arr is ORIG.arr) else 'other:%r' % (v_,)
+                    st['log'].append('rdbuf->' + st['rdbuf'])
+                    return old_
+
+                def h_setstate(it, fn_, i_, env_, st=st):
+                    st['fail'] = True
+                    return None
+
+                def h_convert(it, fn_, i_, env_, st=st, fail_at=fail_at, ORIG=ORIG):
+                    a_ = fn_.args(i_)
+                    b_, e_, o_ = it.rvalue(fn_, a_[0], env_), it.rvalue(fn_, a_[1], env_), it.rvalue(fn_, a_[2], env_)
+                    if not (isinstance(b_, _PV) and isinstance(e_, _PV) and b_.arr is e_.arr and 0 <= b_.off <= e_.off <= len(b_.arr.elems)):
+                        raise _OOB('Filter::convert is handed the range [%r,%r)' % (b_, e_))
+                    k_ = len(st['conv'])
+                    st['conv'].append(([x.lo & 0xFF if x.is_const() else None for x in b_.arr.elems[b_.off:e_.off]], isinstance(o_, _PV) and o_.arr is ORIG.arr))
+                    return _AV.const(-1 if fail_at is not None and k_ >= fail_at else 0)
+                SB, IOS = 'std::basic_streambuf<char>::', 'std::basic_ios<char>::'
+                hooks = {SB + 'setp': h_setp, SB + 'pbase': h_get('pbase'), SB + 'pptr': h_get('pptr'), SB + 'epptr': h_get('epptr'), SB + 'pbump': h_pbump, IOS + 'rdbuf': h_rdbuf, IOS + 'setstate': h_setstate}
+                for g in P.fns.values():
+                    if g.short == 'convert' and (g.record or '').endswith(short):
+                        hooks[model.strip_targs(g.bname)] = h_convert
+                        hooks[g.bname] = h_convert
+                it = _Interp(P, [], hooks=hooks, max_steps=2000000)
+                it.fields = {FLD + 'buffer_': _Cell(_Arr([_AV.const(0xEE)] * N_, 'buffer_')), FLD + 'output_': _Cell(_AV.const(0x77)), FLD + 'output_stream_': _Cell(_AV.const(0x77))}
+                msg = [(7 * j + 3) % 251 for j in range(M)]
+                try:
+                    it.call_fn(fns_['ctor'], [])
+                    if st['pbase'] is None or st['epptr'] is None or st['epptr'].off - st['pbase'].off <= 0:
+                        bad.append('the constructor does not set up a put area')
+                        break
+                    # the constructor initialises the two pointers to 0 through member initialisers, which E3 does not run: start from that state
+                    it.fields[FLD + 'output_'].v, it.fields[FLD + 'output_stream_'].v = _AV.const(0), _AV.const(0)
+                    it.call_fn(fns_['steal'], [_Cell(STREAM)])
+                    if st['rdbuf'] != 'filter':
+                        bad.append('steal() does not install the filter as the stream buffer')
+                        break
+                    eof_seen = False
+                    for c_ in msg:
+                        if st['pptr'].off < st['epptr'].off:
+                            it.store(('elem', st['pptr']), _AV.const(c_))
+                            st['pptr'] = _PV(st['pptr'].arr, st['pptr'].off + 1)
+                        else:
+                            rv = it.call_fn(fns_['overflow'], [_AV.const(c_)])
+                            if isinstance(rv, _AV) and rv.is_const() and rv.lo == -1:
+                                eof_seen = True
+                                break
+                    rel = it.call_fn(fns_['release'], [])
+                    nruns += 1
+                except _OOB as e_:
+                    bad.append('%d bytes: %s' % (M, e_))
+                    break
+                sent = [x for rng, _ in st['conv'] for x in rng]
+                sink_ok = all(s_ for _, s_ in st['conv'])
+                osv, ov = it.fields[FLD + 'output_stream_'].v, it.fields[FLD + 'output_'].v
+                if fail_at is None:
+                    if sent != msg:
+                        bad.append('%d bytes put: convert received %d bytes%s' % (M, len(sent), '' if len(sent) != len(msg) else ' in a different order / with other values'))
+                    elif not sink_ok:
+                        bad.append('%d bytes put: convert is not given the original stream buffer as sink' % M)
+                    elif st['rdbuf'] != 'orig' or not (isinstance(osv, _AV) and osv.is_const() and osv.lo == 0):
+                        bad.append('%d bytes put: release() does not restore the original buffer and forget the stream (%s)' % (M, st['rdbuf']))
+                    elif not (isinstance(rel, _AV) and rel.is_const() and rel.lo == 0) or st['fail']:
+                        bad.append('%d bytes put: release() reports %r / failbit %s without any failure' % (M, rel, st['fail']))
+                else:
+                    ncalls_needed = (M > N_) + (1 if fail_at == 1 and M > 2 * N_ else 0)
+                    failed = len(st['conv']) > fail_at
+                    if failed and not st['fail']:
+                        bad.append('%d bytes put, convert fails at call %d: failbit is not set' % (M, fail_at))
+                    elif failed and M > N_ * (fail_at + 1) and not eof_seen:
+                        bad.append('%d bytes put, convert fails at call %d: overflow does not return EOF' % (M, fail_at))
+                    elif failed and not eof_seen and not (isinstance(rel, _AV) and rel.is_const() and rel.lo == -1):
+                        bad.append('%d bytes put, convert fails in release(): release() returns %r' % (M, rel))
+                    elif st['rdbuf'] != 'orig':
+                        bad.append('%d bytes put, convert fails: the original buffer is not restored' % M)
+            if bad:
+                break
+        dt = [g for g in fbs[rec] if g.kind == 'dtor' and g.body is not None]
+        ctx.check(bool(dt) and any(q.short_of(dt[0].callee(i) or '') == 'release' for i in dt[0].calls()), R9, '%s:destructor-releases' % short,
+                  'the destructor does not release(): an exception while the value is rendered leaves the stream pointing at a destroyed buffer', dt[0].where if dt else fns_['overflow'].where)
+        ctx.check(not bad, R9, '%s:put-area-protocol' % short, '; '.join(bad[:2]), fns_['overflow'].where, detail={'runs': nruns, 'buffer': N_})
+    ctx.floor(R9, 4)
     ctx.floor(R5, 7)
     ctx.floor(R6, 6)
     ctx.floor(R1, 4)
     ctx.floor(R2, 12)
+    # ---------------- R8 template filters install their converting buffer around the rendering of the value
+    R8 = ctx.rule('C15.R8', 'template filters escape / urlencode / base64_urlencode: operator()(out) diverts `out` into the converting buffer (constructed on, or steal()ing, that very stream) before the value is rendered, '
+                            'renders the value into the same stream on every path, and (base64) releases the captured text and encodes exactly [begin(),end()) of it back into `out`')
+    for (cls, bufrec) in (('escape', 'escape_buf'), ('urlencode', 'urlencode_buf'), ('base64_urlencode', 'steal_buffer')):
+        f = P.fn(FB + cls + '::operator()', must=False)
+        ctx.require(f is not None and f.body is not None and len(f.params) == 1, 'C15.R8: filters::%s::operator()(std::ostream&) not found' % cls)
+        outp = q.param_by_index(f, 0)
+        render = [i for i in f.calls() if (f.callee(i) or '').startswith('cppcms::filters::streamable::operator()') and [f.ref_of(x) for x in f.args(i)][-1:] == [outp]]
+        bufs = [d for i in f.all_nodes() if f.N(i)['k'] == 'DeclStmt' for d in f.N(i)['decls'] if bufrec in (f.types[d['t']] or '')]
+        ok = len(render) == 1 and len(bufs) == 1 and q.always_before_exit(f, render)
+        why = 'the value is not rendered exactly once into `out` through one %s' % bufrec
+        if ok:
+            bv = bufs[0]['ref']
+            divert = [i for i in f.calls() if q.short_of(f.callee(i) or '') == 'steal' and f.obj(i) is not None and f.ref_of(f.obj(i)) == bv and [f.ref_of(x) for x in f.args(i)] == [outp]]
+            ctor = bufs[0].get('init')
+            if ctor is not None and f.N(f.strip(ctor))['k'] == 'CXXConstructExpr' and [f.ref_of(x) for x in f.N(f.strip(ctor))['ch']] == [outp]:
+                divert.append(f.strip(ctor))
+            early = [i for i in f.calls() if q.short_of(f.callee(i) or '') == 'release' and f.obj(i) is not None and f.ref_of(f.obj(i)) == bv and not q.before(f, render[0], i)]
+            ok = len(divert) >= 1 and all(q.before(f, d_, render[0]) for d_ in divert[:1]) and not early
+            why = '`out` is not diverted into the buffer before the value is rendered (or the buffer is released before it)'
+            if ok and cls == 'base64_urlencode':
+                enc = [i for i in f.calls() if f.bcallee(i) == 'cppcms::b64url::encode']
+                rel = [i for i in f.calls() if q.short_of(f.callee(i) or '') == 'release' and f.obj(i) is not None and f.ref_of(f.obj(i)) == bv]
+                ok = len(enc) == 1 and len(rel) >= 1 and q.before(f, render[0], rel[0]) and q.before(f, rel[0], enc[0]) and q.always_before_exit(f, enc)
+                why = 'the captured text is not released and then encoded into `out`'
+                if ok:
+                    a_ = f.args(enc[0])
+                    src = lambda e, what: any(q.short_of(f.callee(j) or '') == what and f.obj(j) is not None and f.ref_of(f.obj(j)) == bv for j in q.expr_calls_deep(f, e))
+                    ok = src(a_[0], 'begin') and not src(a_[0], 'end') and src(a_[1], 'end') and not src(a_[1], 'begin') and f.ref_of(a_[2]) == outp
+                    why = 'b64url::encode is not given [begin(), end()) of the captured text and `out`'
+        ctx.check(ok, R8, 'filters::%s::operator():diverts-then-renders' % cls, why, f.where)
+    ctx.floor(R8, 3)
     ctx.floor(R3, 4)
     ctx.floor(R4, 10)
     ctx.trust('entity table, RFC 3986 unreserved set and RFC 4648 section 5 alphabet embedded in rules/C15.py')
